@@ -145,6 +145,10 @@ pub struct Case {
     /// the follow-up probes run under a heap limit of (the control's heap length + this), on both
     /// parties: heap cells a rejected source left behind eat into it
     pub probe_heap_slack: Option<usize>,
+    /// the last accepted source is still running when the rejected one arrives: it was compiled
+    /// and then stopped by an instruction limit of this size; after the rejection it is continued
+    /// with run() on both parties
+    pub pause: Option<(String, usize)>,
 }
 
 pub struct Reject;
@@ -219,11 +223,27 @@ struct Shape {
     nested: usize,
     flows: usize,
     inputs: usize,
+    /// what a program that is paused (by the instruction limit) still needs to be continued
+    ip: usize,
+    frames: Vec<String>,
+    loops: Vec<String>,
+    special: Vec<String>,
 }
 
 fn shape(xs: &Xstate) -> Shape {
     let d = xs.verif_dump();
-    Shape { stack: d.data, hidden: d.hidden, mode: d.mode.to_string(), nested: d.nested.len(), flows: d.flows.len(), inputs: d.inputs }
+    Shape {
+        stack: d.data,
+        hidden: d.hidden,
+        mode: d.mode.to_string(),
+        nested: d.nested.len(),
+        flows: d.flows.len(),
+        inputs: d.inputs,
+        ip: d.ip,
+        frames: d.frames,
+        loops: d.loops,
+        special: d.special,
+    }
 }
 
 #[derive(Clone, Debug, PartialEq)]
@@ -290,6 +310,18 @@ fn one1(case: &Case, r: &Rejected, st: &mut Stats) -> Result<bool, Violation> {
     let text = r.text();
     let mut a = prepare(case);
     let mut b = prepare(case);
+    let mut paused = false;
+    if let Some((src, k)) = &case.pause {
+        for xs in [&mut a, &mut b] {
+            xs.set_insn_limit(Some(*k)).unwrap();
+            let r = metered(xs, |xs| xs.compile(src).and_then(|_| xs.run()));
+            paused = matches!(&r, Err(Xerr::ErrorMsg(m)) if m.starts_with("insn limit reached")) && xs.is_running();
+            xs.set_insn_limit(None).unwrap();
+        }
+        if paused {
+            st.count("probe.rejected_while_a_program_is_paused");
+        }
+    }
     let _ = a.read_stdout();
     let _ = b.read_stdout();
     // a third twin tells whether the source dies while being built (compile executes nothing
@@ -380,8 +412,10 @@ fn one1(case: &Case, r: &Rejected, st: &mut Stats) -> Result<bool, Violation> {
                 "context"
             } else if after.flows != before.flows {
                 "flows"
-            } else {
+            } else if after.inputs != before.inputs {
                 "inputs"
+            } else {
+                "paused-program"
             };
             return Err(Violation::new(
                 "C10.after",
@@ -451,6 +485,29 @@ fn one1(case: &Case, r: &Rejected, st: &mut Stats) -> Result<bool, Violation> {
             }
         }
         return Ok(false);
+    }
+    // the program that was paused when the rejected source arrived is continued on both parties
+    if paused {
+        a.set_insn_limit(Some(PROBE_LIMIT)).unwrap();
+        b.set_insn_limit(Some(PROBE_LIMIT)).unwrap();
+        let ra = metered(&mut a, |xs| xs.run());
+        let rb = metered(&mut b, |xs| xs.run());
+        let (sa, sb) = (render_result(&ra), render_result(&rb));
+        if sa != sb {
+            return Err(Violation::new(
+                "C10.resume",
+                "result",
+                format!("after the rejected `{}` ({}), continuing the paused program returned {} on the victim but {} on the control", text, r.kind, sa, sb),
+            ));
+        }
+        let (va, vb) = (view(&mut a), view(&mut b));
+        if let Some((field, d)) = view_diff(&va, &vb) {
+            return Err(Violation::new(
+                "C10.resume",
+                field,
+                format!("after the rejected `{}` ({}), continuing the paused program: {}", text, r.kind, d),
+            ));
+        }
     }
     // (b) every later source behaves as on the control
     if let Some(k) = case.probe_heap_slack {
@@ -725,8 +782,27 @@ fn generate0(rng: &mut Rng, tier: Tier) -> Case {
         Rejected { prefix, kind: kind.to_string(), fail: fail.to_string(), trailing, limit: limit_for(kind) }
     };
     let enumerate = tier == Tier::Thorough && !runtime_mode && rng.chance(1, 2);
+    if enumerate && late_pair {
+        // the late-bound kinds are not among the enumerated ones, and their probe runs a late word
+        // into the instruction limit on both twins for every (position, kind) pair: minutes per case
+        history.retain(|h| h != "late hL1 : hL2 hL1 ;");
+        chosen.retain(|p| !p.contains("hL2"));
+    }
     let probe_heap_slack = if rng.chance(1, 5) { Some(rng.below(3)) } else { None };
-    Case { input, recording, history, rejected, base, enumerate, style_r, style_p, probes: chosen, probe_heap_slack }
+    let pause = if !enumerate && !runtime_mode && rng.chance(1, 8) {
+        let mut fp = f.clone();
+        fp.errors = 0;
+        fp.vecs = true;
+        fp.maps = true;
+        let mut g = Gen::new(rng, fp, env.clone(), "z");
+        let n = 6 + g.rng.below(30);
+        let (src, _) = g.source(n, &[]);
+        env.counter = g.env.counter;
+        Some((src, 1 + rng.below(14)))
+    } else {
+        None
+    };
+    Case { input, recording, history, rejected, base, enumerate, style_r, style_p, probes: chosen, probe_heap_slack, pause }
 }
 
 impl Engine for Reject {
@@ -841,6 +917,16 @@ impl Engine for Reject {
             c.recording = false;
             out.push(c);
         }
+        if let Some((src, k)) = &case.pause {
+            let mut c = case.clone();
+            c.pause = None;
+            out.push(c);
+            for s2 in shrink_source(src) {
+                let mut c = case.clone();
+                c.pause = Some((s2, *k));
+                out.push(c);
+            }
+        }
         if case.style_r != Style::Eval {
             let mut c = case.clone();
             c.style_r = Style::Eval;
@@ -872,7 +958,9 @@ impl Engine for Reject {
             "style_r" => c.style_r.name(),
             "style_p" => c.style_p.name(),
             "probes" => strs(&c.probes),
-            "probe_heap_slack" => c.probe_heap_slack
+            "probe_heap_slack" => c.probe_heap_slack,
+            "pause_src" => c.pause.as_ref().map(|p| p.0.clone()),
+            "pause_at" => c.pause.as_ref().map(|p| p.1)
         }
     }
 
@@ -900,6 +988,10 @@ impl Engine for Reject {
             style_p: style(&j.f_str("style_p")?)?,
             probes: json_strs(j, "probes")?,
             probe_heap_slack: j.get("probe_heap_slack").and_then(|x| x.int()).map(|x| x as usize),
+            pause: match (j.get("pause_src").and_then(|x| x.str()), j.get("pause_at").and_then(|x| x.int())) {
+                (Some(s), Some(k)) => Some((s.to_string(), k as usize)),
+                _ => None,
+            },
         })
     }
 }
